@@ -138,11 +138,29 @@ OPS = {"--lt": lambda c: c < 0, "--le": lambda c: c <= 0, "--eq": lambda c: c ==
 def dtest_task(task):
     bindir, kind, pairs = task
     sh = Shard()
-    for a, b in pairs:
+    opl = list(OPS.items())
+    for n_, (a, b) in enumerate(pairs):
         ta, ifmt = mk(kind, *a)
         tb, _ = mk(kind, *b)
         ka, kb = key(kind, *a), key(kind, *b)
         want = (ka > kb) - (ka < kb)
+        # the same operators as options of dgrep: the line A is selected iff A op B (three of the eight per pair, in rotation)
+        for op, f in [opl[(n_ * 3 + i) % len(opl)] for i in range(3)] if kind not in ("mil", "epoch", "ldn") else []:      # (@N and -i ldn are not read from lines / by the expression)
+            argv = [str(bindir / "dgrep")] + (["-i", ifmt] if ifmt else []) + [op, tb]
+            r = run(argv, stdin=(ta + "\n").encode(), cpu=5, wall=60)
+            sh.procs += 1
+            if sh.check_san(r, "san", "dgrep-op:%s:san" % kind):
+                continue
+            sel = r.out.strip() != b""
+            c = ("dgrep-op", kind, op, "eq" if want == 0 else "ne")
+            if r.rc in (0, 1) and sel == bool(f(want)) and (not sel or r.out.decode("latin-1").rstrip("\n") == ta):
+                sh.ok("dtest", c)
+            else:
+                sh.bad("dtest", "dgrep-op:%s:%s:%s" % (kind, op, "eq" if want == 0 else "ne"),
+                       "echo %s | %s -> %r (rc %s), the line is %s B so it %s be selected" %
+                       (ta, core.shq(argv), r.out[:80], r.rc, {0: "equal to", 1: "later than", -1: "earlier than"}[want],
+                        "must" if f(want) else "must not"),
+                       dict(argv=argv, stdin=ta, expected_selected=bool(f(want)), observed=r.out.decode("latin-1")), cls=c)
         for op, f in list(OPS.items()) + [("--cmp", None)]:
             argv = [str(bindir / "dtest")] + (["-i", ifmt] if ifmt else []) + [ta, op, tb]
             r = run(argv, cpu=5, wall=60)
